@@ -82,3 +82,19 @@ Definition rt_domain (r : res) : bool :=
   bool_decide (map_Forall (fun k v => kept_scalar k = true /\ float_exact v = true) (scm r)) &&
   negb (bool_decide (sc r = Some ∅)) &&
   float_exact (cpu r) && float_exact (mem r).
+
+(* ---- ResFloat642Quantity / ResQuantity2Float64 (resource_info.go 125-149) ----
+   A float64 amount is x / g for the grid g (x an integer, g > 0; g = 1: integral amounts, g = 16: the
+   1/16 grid of the arithmetic streams).  int64(quantity) truncates toward zero (Z.quot); cpu becomes a
+   milli-quantity, every other name a whole-unit quantity (BinarySI).  Back: MilliValue() for cpu,
+   Value() (rounding away from zero) otherwise.  Quantities are milli-integers as above. *)
+Definition float_to_quantity (g : Z) (is_cpu : bool) (x : Z) : Z :=
+  if is_cpu then Z.quot x g else 1000 * Z.quot x g.
+
+(* the float returned, in 1/g units *)
+Definition quantity_to_float (g : Z) (is_cpu : bool) (m : Z) : Z :=
+  if is_cpu then m * g else qvalue m * g.
+
+(* the domain on which the model claims to describe the float code: int64(f) defined, floats exact *)
+Definition conv_domain (g x : Z) : bool :=
+  bool_decide (0 < g) && bool_decide (Z.abs x <= 2 ^ 53) .
